@@ -462,6 +462,22 @@ def b_inverse(ctx):
             si = np.array([100, 0, -200])
             if not np.allclose(np.asarray(ro_i.strain(si), dtype=float), np.asarray(ro_i.strain(si.astype(float)), dtype=float), rtol=1e-12, atol=0):
                 ctx.fail('C16:ramberg-osgood:number-types', 'strain of an integer stress array differs from the float array', None)
+        # true stress / strain conversions on float64 arrays, 0-d arrays and Series: exact inverses of the engineering conversions, twice on the same record
+        # (the frame guards compare the arguments with snapshots; added after seed C16-f added 1 to the caller's strain array in place)
+        if n == ns[0]:
+            import pylife.materiallaws.true_stress_strain as tss
+            e_t, s_t = np.array([0.0, 0.002, 0.01, 0.05, 0.2]), np.array([0.0, 420.0, 480.0, 530.0, 560.0])
+            for cname, mk in (('array', lambda v: np.array(v, dtype=float)), ('series', lambda v: pd.Series(np.array(v, dtype=float))), ('0-d array', lambda v: np.array(float(np.asarray(v)[3])))):
+                ee, ss = mk(e_t), mk(s_t)
+                ctx.case(True, key=(E, K, 'true-stress-strain', cname))
+                for rep in (1, 2):
+                    ts_ = np.asarray(tss.true_stress(ss, ee), dtype=float)
+                    te_ = np.asarray(tss.true_strain(ee), dtype=float)
+                    want_s = np.asarray(mk(s_t), dtype=float) * (1 + np.asarray(mk(e_t), dtype=float))
+                    want_e = np.log1p(np.asarray(mk(e_t), dtype=float))
+                    if not (np.allclose(ts_, want_s, rtol=1e-12, atol=0) and np.allclose(te_, want_e, rtol=1e-12, atol=1e-300)):
+                        ctx.fail(f'C16:true-stress-strain:{cname}', f'true_stress / true_strain on {cname} (evaluation {rep} of the same record): {ts_.tolist()} / {te_.tolist()}, expected {want_s.tolist()} / {want_e.tolist()}', None)
+                        break
         h1, h3 = HookesLaw1d(E), HookesLaw3d(E, 0.3)
         for cname, mk in list(containers.items())[:2]:
             x = mk(s)
